@@ -14,7 +14,7 @@ use std::rc::Rc;
 pub const DEF: PropDef = PropDef {
     id: "C08",
     level: "fault_enumeration",
-    rule: "all sequences of <=4 (thorough <=6) statements over {say \"a\", say x, say x plus 1, listen to x, listen, listen to y at 0, put 1 into z, say y at 0, say 1.5} x 16 inputs (empty, blank lines between non-blank lines, missing final newline, blank lines, non-ASCII, a 9000-byte line, lines ending exactly at / before / after the 8 KiB buffer boundary, invalid UTF-8) x every schedule of environment answers with at most d deviations from the default (writer: 1-byte short write, Interrupted, Ok(0), Err(Other), Err(BrokenPipe); reader: 1-byte read, whole-input read, Interrupted, Err(Other)), d=2 everywhere and d=3 on programs of <=2 statements (thorough: d=2 everywhere, d=3 on <=4, d=4 on <=3); default reader delivers one line per call so that every listen maps to its own read call; a case = (program, input), explored over all its schedules; non-trivial = the program performs at least one I/O call; distinct = distinct (program, input)",
+    rule: "all sequences of <=4 (thorough <=6) statements over {say \"a\", say x, say x plus 1, listen to x, listen, listen to y at 0, put 1 into z, say y at 0, say 1.5} x 16 inputs (empty, blank lines between non-blank lines, missing final newline, blank lines, non-ASCII, a 9000-byte line, lines ending exactly at / before / after the 8 KiB buffer boundary, invalid UTF-8) x every schedule of environment answers with at most d deviations from the default (writer: 1-byte short write, Interrupted, Ok(0), Err(Other), Err(BrokenPipe); reader: 1-byte read, whole-input read, Interrupted, Err(Other)), d=2 everywhere and d=3 on programs of <=2 statements (thorough: d=2 everywhere, d=3 on <=4, d=4 on <=3); second family: every I/O body (all sequences of 1..2 of say \"a\" / say x / listen to x / listen) placed in each of 27 syntactic contexts (top level; a function called as a statement, in an output, an assignment, an if / while / until condition, a return value, list operands, a rock list, a read and a written subscript, a compound assignment, both sides of short-circuit operators, a cut parameter, call arguments, nested calls, recursion before and after the recursive call; then / else / while / until bodies, after continue, before break) x 2 tails (an output, a listen) x 4 inputs, d=2 (thorough d=3); default reader delivers one line per call so that every listen maps to its own read call; a case = (program, input), explored over all its schedules; non-trivial = the program performs at least one I/O call; distinct = distinct (program, input)",
     assumptions: &[
         "reference line model from the property text; CR is not in the input alphabet (U-crlf)",
         "the number of read calls per listen is not judged (buffering is allowed); what is judged: every read call happens when exactly the output due before some listen has been written, the first read at the first listen",
@@ -246,9 +246,69 @@ struct Expected {
 }
 
 pub struct C08 {
-    cases: Space<(Vec<&'static str>, usize)>,
+    /// (program text, number of statements that decides the deviation bound, input index)
+    fams: Vec<(String, Space<(String, usize, usize)>)>,
     inputs: Vec<Vec<u8>>,
     tier: Tier,
+}
+
+/// I/O statements placed in every syntactic context that can run a statement or evaluate an
+/// expression: `@B` is the I/O body, `@T` the tail that must (not) run afterwards. `fun` performs the
+/// body and gives its argument back.
+pub const CONTEXTS: &[&str] = &[
+    "@B@T",
+    "@Ffun taking 1\n@T",
+    "@Fsay fun taking 1\n@T",
+    "@Fput fun taking 1 into z\n@T",
+    "@Fif fun taking 1\nsay \"y\"\n\n@T",
+    "@Fif fun taking 0\nsay \"y\"\nelse\nsay \"n\"\n\n@T",
+    "@Fput 0 into c\nwhile fun taking c is less than 2\nbuild c up\n\n@T",
+    "@Fput 0 into c\nuntil fun taking c is 2\nbuild c up\n\n@T",
+    "if true\n@B\n@T",
+    "if false\nsay \"n\"\nelse\n@B\n@T",
+    "put 0 into c\nwhile c is less than 2\nbuild c up\n@B\n@T",
+    "put 0 into c\nuntil c is 2\nbuild c up\n@B\n@T",
+    "put 0 into c\nwhile c is less than 3\nbuild c up\nif c is 2\ncontinue\n\n@B\n@T",
+    "while true\n@Bbreak\n\n@T",
+    "@Fouter takes k\nfun taking k\ngive back k\n\nouter taking 1\n@T",
+    "@Fouter takes k\ngive back fun taking k\n\nsay outer taking 1\n@T",
+    "@Fsay 1 plus fun taking 1, fun taking 2\n@T",
+    "@Frock w with fun taking 1, fun taking 2\n@T",
+    "@Frock w with 5, 6\nsay w at fun taking 0\n@T",
+    "@Flet w at fun taking 0 be 1\n@T",
+    "@Fput 1 into z\nlet z be with fun taking 1\n@T",
+    "@Fsay true and fun taking 1\nsay false or fun taking 2\n@T",
+    "@Fsay false and fun taking 1\nsay true or fun taking 2\n@T",
+    "@Fcut \"p,q\" into z with fun taking \",\"\n@T",
+    "@Fouter takes k, j\ngive back k\n\nput 0 into z\nsay outer taking z, fun taking 2\n@T",
+    "rec takes k\nif k is 0\ngive back 0\n\n@Bput k minus 1 into j\ngive back rec taking j\n\nrec taking 2\n@T",
+    "rec takes k\nif k is 0\ngive back 0\n\nput k minus 1 into j\nrec taking j\n@Bgive back k\n\nsay rec taking 2\n@T",
+];
+pub const BODIES: &[&str] = &["say \"a\"\n", "say x\n", "listen to x\n", "listen\n"];
+pub const TAILS: &[&str] = &["say \"t\"\n", "listen to y\nsay y\n"];
+/// indices into inputs() used by the context family
+pub const CONTEXT_INPUTS: &[usize] = &[0, 1, 6, 8];
+
+fn context_cases() -> Vec<(String, usize, usize)> {
+    let mut bodies: Vec<String> = BODIES.iter().map(|s| s.to_string()).collect();
+    for a in BODIES {
+        for b in BODIES {
+            bodies.push(format!("{}{}", a, b));
+        }
+    }
+    let mut v = Vec::new();
+    for c in CONTEXTS {
+        for b in &bodies {
+            for t in TAILS {
+                let fun = format!("fun takes k\n{}give back k\n\n", b);
+                let text = format!("put \"i\" into x\n{}", c.replace("@F", &fun).replace("@B", b).replace("@T", t));
+                for &i in CONTEXT_INPUTS {
+                    v.push((text.clone(), 3usize, i));
+                }
+            }
+        }
+    }
+    v
 }
 
 fn build(tier: Tier) -> Box<dyn Check> {
@@ -256,7 +316,8 @@ fn build(tier: Tier) -> Box<dyn Check> {
     let progs = s.seq_range(1, tier.pick(4, 6));
     let ins = inputs();
     let idx: Space<usize> = Space::of((0..ins.len()).collect());
-    Box::new(C08 { cases: progs.product(&idx, |p, i| (p, i)), inputs: ins, tier })
+    let flat = progs.product(&idx, |p, i| (p.concat(), p.len(), i));
+    Box::new(C08 { fams: vec![("program x input".into(), flat), ("I/O in every context x input".into(), Space::of(context_cases()))], inputs: ins, tier })
 }
 
 fn show_schedule(s: &[(usize, Alt)]) -> String {
@@ -352,16 +413,15 @@ impl C08 {
 
 impl Check for C08 {
     fn families(&self) -> Vec<(String, u64)> {
-        vec![("program x input".into(), self.cases.len())]
+        self.fams.iter().map(|(n, s)| (n.clone(), s.len())).collect()
     }
-    fn describe(&self, _fam: usize, idx: u64) -> Value {
-        let (p, i) = self.cases.get(idx);
+    fn describe(&self, fam: usize, idx: u64) -> Value {
+        let (p, _, i) = self.fams[fam].1.get(idx);
         let inp = &self.inputs[i];
-        json!({"text": format!("{}⏎input={:?}", p.concat(), String::from_utf8_lossy(&inp[..inp.len().min(40)])), "program": p.concat(), "input_bytes": inp.len()})
+        json!({"text": format!("{}⏎input={:?}", p, String::from_utf8_lossy(&inp[..inp.len().min(40)])), "program": p, "input_bytes": inp.len()})
     }
-    fn run_case(&self, _fam: usize, idx: u64, ctx: &mut Ctx) {
-        let (p, i) = self.cases.get(idx);
-        let text = p.concat();
+    fn run_case(&self, fam: usize, idx: u64, ctx: &mut Ctx) {
+        let (text, nst, i) = self.fams[fam].1.get(idx);
         let input = &self.inputs[i];
         ctx.case_text(&format!("{}|{}", text, i));
         let prog = match rrss::frontend::parser::parse(&text) {
@@ -411,7 +471,6 @@ impl Check for C08 {
         }
         ctx.observe(&a.env.written);
         ctx.observe_str(&format!("{:?}|{}", a.result, a.env.log.len()));
-        let nst = p.len();
         let depth = match self.tier {
             Tier::Quick => {
                 if nst <= 2 {
@@ -435,7 +494,7 @@ impl Check for C08 {
         self.explore(&prog, &text, input, &exp, &mut schedule, depth, ctx, &mut viol);
     }
     fn static_coverage(&self) -> Value {
-        json!({"statements": STMTS, "inputs": inputs().iter().map(|i| String::from_utf8_lossy(&i[..i.len().min(24)]).into_owned()).collect::<Vec<_>>(),
+        json!({"statements": STMTS, "contexts": CONTEXTS, "context_bodies": "all sequences of 1..2 of [say \"a\", say x, listen to x, listen]", "context_tails": TAILS, "inputs": inputs().iter().map(|i| String::from_utf8_lossy(&i[..i.len().min(24)]).into_owned()).collect::<Vec<_>>(),
                "writer_alternatives": ["1-byte short write", "Err(Interrupted)", "Ok(0)", "Err(Other)", "Err(BrokenPipe)"],
                "reader_alternatives": ["1-byte read", "whole-input read", "Err(Interrupted)", "Err(Other)"]})
     }
